@@ -13,7 +13,7 @@ from .model import Src, g_char, g_text
 from .refs import DIALECTS
 
 SOUP_ALPHABET = ["|", "\\", "n", "@", "#", ":", '"', "`", "<", ">", " ", "\t", "\r", "\n", "\n", "a", "*", "-", "{", "}", "%", "'", "$", "(", ")", "[", "]"]
-DECOYS = ["@wip\u3000# memo", "@a\xa0#c", "@a\t# c", " @a\u2003#x @b", "@a\x0b#c", "@a #", "@a\t#", "* * *", "* *", "- - -", "#language: en-", "# language: _fr", "#language: pt--BR", "@ smoke", "@a @\tb", "@ a b", "@a@ b", "# language: es-419", "#language: fr2", "# language: [fr]", "#language:en^", "# language: `en`", "# language: français", "#language: en_au", "#language: en-au",
+DECOYS = ["#language: mk", "# language: zh", "#language: nb", "#language: iw", "# language: sr", "@smoke @wip   # see #123 and #124", "@a # b # c", "@a #b #c @d", "@wip\u3000# memo", "@a\xa0#c", "@a\t# c", " @a\u2003#x @b", "@a\x0b#c", "@a #", "@a\t#", "* * *", "* *", "- - -", "#language: en-", "# language: _fr", "#language: pt--BR", "@ smoke", "@a @\tb", "@ a b", "@a@ b", "# language: es-419", "#language: fr2", "# language: [fr]", "#language:en^", "# language: `en`", "# language: français", "#language: en_au", "#language: en-au",
           "{\"json\": {\"a\": 1}}", "Given {int} cukes", "{0} {name} {", "} %s %d %(k)s", "100% done", "it's", "@a b", "@", "@t #c", "#language: xx", "# language: fr", "#language:en", "| a |", "| a | b |", "|", "| \\", "| \\| | \\n |", '"""', "```",
           '"""json', "``` x", "Examples:", "Scenario: s", "Scenario Outline: <a>", "Feature: f", "Rule: r", "Background:", "Given x", "And <a>", "* y",
           "When ", "Then <b> z", "", "  ", "text", "\t", "\r", "<a>", "|(|", "| a(b | $1 |", "Given <a(b> <$1> <[>", "@x #c", " ", "\x0b", "\x1c", "\x85",
@@ -192,6 +192,18 @@ def big_documents(thorough=False):
         out.append(("bad-eof-in-docstring-%d" % n, "Feature: f\n Scenario: s\n  Given d\n   \"\"\"\n" + "x\n" * n))
     out.append(("source-over-4MiB", "Feature: f\n Scenario: s\n  description with \x0c form feed, \x1e record separator, \x85 and \u2028 inside\n  # " + "x" * (4 * 1024 * 1024 + 4096) +
                 "\n  Given a\n   | c\x0cd | e\u2029f |\n  When b\n"))
+    out.append(("same-length-rows-different-cells", "Feature: f\n Scenario: s\n  Given t\n   | name  | value |\n   | a | b | c     |\n"))
+    out.append(("same-length-rows-same-cells", "Feature: f\n Scenario: s\n  Given t\n   | name  | value |\n   | a|b   | c|d|e |\n   | a\\|b  | c     |\n  And u\n   | 1 | 2 |\n   | 3 | 4 |\n   |11|22 |\n"))
+    out.append(("step-at-column-10003", "Feature: f\n Background:\n" + " " * 10002 + "Given far right\n  Given normal\n   | t |\n Scenario: s\n" + " " * 10002 + "When far\n   \"\"\"\n   d\n   \"\"\"\n  Then near\n"))
+    out.append(("rows-differing-only-in-the-escaped-pipe", "Feature: f\n Background:\n  Given t\n   | ls\\|wc | sort |\n   | ls | wc\\|sort |\n   | ls\\|wc\\|sort | |\n Scenario: s\n  When u\n   | a\\|b | c |\n   | a | b\\|c |\n"))
+    for n in (129, 130, 300):
+        out.append(("wide-row-with-escaped-pipes-%d" % n, "Feature: f\n Scenario: s\n  Given t\n   |" + "".join(" c%d\\|x |" % i if i % 7 == 3 else " c%d |" % i for i in range(n)) + "\n"))
+    for k in (2, 3, 5):
+        out.append(("ragged-first-row-is-the-odd-one-%d" % k, "Feature: f\n Scenario: s\n  Given t\n   | only |\n" + "   | b | c |\n" * k))
+        out.append(("ragged-examples-header-is-the-odd-one-%d" % k, "Feature: f\n Scenario Outline: s\n  Given <h>\n  Examples:\n   | h |\n" + "   | b | c |\n" * k))
+    for n in (63, 64, 65, 130):
+        out.append(("examples-%d-rows-backslash-values" % n, "Feature: f\n Scenario Outline: open <path> then <n>\n  Given <path>\n   | <path> |\n  Examples:\n   | path | n |\n" +
+                    "".join("   | C:\\\\temp\\\\new%d\\\\1 | \\\\g<0>%d |\n" % (i, i) for i in range(n))))
     out.append(("ragged-then-other-widths", "Feature: f\n Scenario: s\n  Given x\n   | a | b |\n   | c |\n  And three wide\n   | 1 | 2 | 3 |\n   | 4 | 5 | 6 |\n  And one wide\n   | z |\n Scenario Outline: o\n  Given <h>\n  Examples:\n   | h | i | j | k |\n   | 1 | 2 | 3 | 4 |\n"))
     for n in [3, 8, 15, 16, 17, 31, 32, 33, 64, 100]:
         # wide examples tables whose values spell the placeholder of a later / an earlier column (substitution is column by column, in header order)
